@@ -28,6 +28,7 @@ PROPS = {
     "C03": dict(level="exploration", lanes=[("hlmon", dict(runner="seqfam")), ("hlmon", dict(runner="blockfam")), CONC]),
     "C04": dict(level="exploration", lanes=[("hlmon", dict(runner="tryfam")), ("hlmon", dict(runner="blockfam")), CONC]),
     "C05": dict(level="exploration", lanes=[CONC, ("hlmon", dict(runner="seqfam")), ("hlmon", dict(runner="blockfam"))]),
+    "C06": dict(level="exploration", lanes=[("hlmon", dict(runner="keyfam"))]),
     "C07": dict(level="exploration", lanes=[("hlmon", dict(runner="dupfam"))]),
     "C08": dict(level="exploration", lanes=[("hlmon", dict(runner="orderfam"))]),
     "C13": dict(level="exploration", lanes=[("hlmon", dict(runner="tryfam"))]),
